@@ -12,7 +12,8 @@ PROPERTY = 'C02'
 LEVEL = 'exploration'
 RULE = ('per element-content type: every word of the reference language up to length L (L=2 quick, 3 thorough; '
         '4 for alphabets <= 8 in thorough), one accepted word per DFA edge (transition cover), and seeded random '
-        'accepted walks (<= 40 symbols) that re-enter loops; a case is one word supplied left to right to a fresh '
+        'accepted walks (<= 40 symbols) that re-enter loops, and long runs (every distinct shortest cycle of the '
+        'reference automaton repeated to about 70 / 160 symbols, thorough 400 as well); a case is one word supplied left to right to a fresh '
         'checked element; non-trivial = non-empty word; distinct = distinct (type, word)')
 ASSUMPTIONS = ['reference DFAs built from /verif/ref/musicxml_4_0.xsd are the schema (self-tested, cross-checked by C03)',
                'children are minimal unchecked instances so only the parent level is judged',
@@ -60,18 +61,27 @@ def run_word(cls, word):
 
 
 def shrink_word(cls, d, word, kind):
+    """delta debugging: drop chunks (halves, quarters, ... single symbols) while the word stays valid and the result keeps its
+    kind; long pumped words lose whole repetitions first"""
     word = list(word)
-    changed = True
-    while changed:
-        changed = False
-        for i in range(len(word)):
-            w2 = word[:i] + word[i + 1:]
+    size = max(1, len(word) // 2)
+    while True:
+        i = 0
+        progress = False
+        while i < len(word):
+            w2 = word[:i] + word[i + size:]
             if d.accepts(w2):
                 r = run_word(cls, w2)
                 if r is not None and r[0] == kind:
                     word = w2
-                    changed = True
-                    break
+                    progress = True
+                    continue
+            i += size
+        if size == 1:
+            if not progress:
+                break
+        else:
+            size = max(1, size // 2)
     return word
 
 
@@ -105,13 +115,18 @@ def run_shard(shard, tier, seed):
     rnd = random.Random('%s:C02:%s' % (seed, t))
     nwalk = 30 if tier == 'quick' else 400
     walks = [d.random_word(rnd, maxlen=rnd.choice([6, 12, 40])) for _ in range(nwalk)]
+    # long runs: every distinct shortest cycle of the reference automaton repeated to ~70 / ~160 symbols (thorough: ~400 too).
+    # Bounded occurrence counts (beam <= 8, ...) are part of the automaton, so these words are valid by construction
+    pumped = d.pumped_words((70, 160) if tier == 'quick' else (70, 160, 400))
+    if len(pumped) > (24 if tier == 'quick' else 120):
+        pumped = rnd.sample(pumped, 24 if tier == 'quick' else 120)
     seen = set()
     viol = []
     evals = 0
     states = set(); edges = set()
     lib.COVERAGE.start(); lib.STEPS.start()
     max_steps = 0
-    for layer, ws in (('core', core), ('cover', cover), ('walk', walks)):
+    for layer, ws in (('core', core), ('cover', cover), ('walk', walks), ('pumped', pumped)):
         for w in ws:
             w = tuple(w)
             if (w in seen) or not d.accepts(w):
@@ -121,7 +136,7 @@ def run_shard(shard, tier, seed):
             S = d.start; states.add(S)
             for s in w:
                 T = d.trans[(S, s)]; edges.add((S, s)); states.add(T); S = T
-            lib.STEPS.begin(budget=5_000_000)
+            lib.STEPS.begin(budget=5_000_000 if layer != 'pumped' else 200_000_000)
             res = run_word(cls, w)
             max_steps = max(max_steps, lib.STEPS.end())
             if res is None:
@@ -134,7 +149,8 @@ def run_shard(shard, tier, seed):
     lib.COVERAGE.stop(); lib.STEPS.stop()
     return {'evaluations': evals, 'distinct_nontrivial': len([w for w in seen if w]), 'violations': viol,
             'samples': [{'type': t, 'word': list(w)} for w in list(seen)[:2]],
-            'counters': {'core_words': len(core), 'cover_words': len(cover), 'walks': len(walks),
+            'counters': {'core_words': len(core), 'cover_words': len(cover), 'walks': len(walks), 'pumped_words': len(pumped),
+                         'longest_word': max([len(w) for w in seen] or [0]),
                          'ref_states_visited': len(states), 'ref_states_total': len(d.live),
                          'ref_edges_visited': len(edges), 'ref_edges_total': len(d.edges()),
                          'stdio_events': len(lib.STDIO_EVENTS)},
